@@ -69,7 +69,10 @@ def run_tlc(module, cfg, wd, env=None, workers=1, heap="2g", timeout=1800,
         cfgp = cfg
     java = ["java", "-XX:+UseSerialGC" if workers == 1 else "-XX:+UseParallelGC",
             "-Xms" + heap, "-Xmx" + heap, "-Xss512m",
-            "-Dfile.encoding=UTF-8", "-Dstdout.encoding=UTF-8", "-Dsun.stdout.encoding=UTF-8"]
+            "-Dfile.encoding=UTF-8", "-Dstdout.encoding=UTF-8", "-Dsun.stdout.encoding=UTF-8",
+            "-Djava.io.tmpdir=" + os.path.join(wd, "jtmp")]
+    shutil.rmtree(os.path.join(wd, "jtmp"), ignore_errors=True)
+    os.makedirs(os.path.join(wd, "jtmp"), exist_ok=True)
     if young:
         java.append("-Xmn" + young)
     if dfs:
@@ -101,6 +104,7 @@ def run_tlc(module, cfg, wd, env=None, workers=1, heap="2g", timeout=1800,
         except subprocess.TimeoutExpired:
             raise ToolError("TLC timed out on %s after %ds" % (module, timeout))
     res.wall = time.time() - t0
+    shutil.rmtree(os.path.join(wd, "jtmp"), ignore_errors=True)
     tail = []
     with open(outp, encoding="utf-8", errors="replace") as f:
         for line in f:
